@@ -8,3 +8,6 @@ import GoNeat.Props.C08
 import GoNeat.Props.C12
 import GoNeat.Props.C13
 import GoNeat.Props.C18
+import GoNeat.Props.C09
+import GoNeat.Props.C09Exact
+import GoNeat.Props.C10
